@@ -225,10 +225,114 @@ def t_wal(ctx):
                 ctx.check('C17.line_faithful', False, bus=bn, ev=lab, exc=repr(ex)[:200])
 
 
+class TypedEvent(BaseEvent[int | None]):
+    """an event whose declared result type is a union (serialised into every WAL line as event_result_type)"""
+    n: int = 1
+
+
+def t_wal_fs(ctx):
+    """A tiny model of the file system under the WAL: the log directory exists or not; mkdir() succeeds or fails (chosen per event
+    through the solver) and the directory may be removed between two events (log rotation); open() fails with FileNotFoundError
+    when the directory is missing.  An event whose directory creation is allowed to succeed and that meets no other fault gets
+    its line — whatever happened to earlier events.  Events include one with a union result type."""
+    svc = env.service
+    n = 3
+    m = [ctx.pick(f'mkdir{i}', ('ok', 'fail')) for i in range(n)]          # outcome of any mkdir call made for event i
+    rm = [False] + [bool(ctx.pick(f'rm{i}', (0, 1))) for i in range(1, n)]     # directory removed before event i is dispatched
+    ctx.new_loop(horizon=5)
+    state = dict(dir=False, cur=0)
+
+    class FakeDir:
+        def mkdir(self, parents=False, exist_ok=False, mode=0o777):
+            i = state['cur']
+            ctx.rec('WAL_MKDIR', ev_index=i, outcome=m[i])
+            if m[i] == 'fail':
+                raise PermissionError('injected mkdir failure')
+            if state['dir'] and not exist_ok:
+                raise FileExistsError('log dir')
+            state['dir'] = True
+
+        def exists(self):
+            return state['dir']
+
+        is_dir = exists
+
+    class FakePath:
+        parent = FakeDir()
+
+        def __fspath__(self):
+            return '/vfw_wal_fs/logs/A.jsonl'
+
+        __str__ = __fspath__
+
+        def exists(self):
+            return False
+
+    class FakeFile:
+        async def __aenter__(self):
+            return self
+
+        async def __aexit__(self, *a):
+            return False
+
+        async def write(self, s):
+            ctx.rec('WAL_WRITE', ev_index=state['cur'], text=s)
+            return len(s)
+
+    async def fake_open(path, mode='r', **kw):
+        ctx.rec('WAL_OPEN', ev_index=state['cur'], dir=state['dir'], mode=mode)
+        if not state['dir']:
+            raise FileNotFoundError(2, 'No such file or directory', str(path))
+        return FakeFile()
+
+    saved = svc.anyio.open_file
+    svc.anyio.open_file = fake_open
+    try:
+        a = ctx.bus('A', wal_path='/vfw_wal_fs/logs/A.jsonl')
+        a.wal_path = FakePath()
+        ctx.on(a, P, 'hP', ret='p')
+        ctx.on(a, TypedEvent, 'hT', ret=3)
+        st = {}
+
+        async def main():
+            mm = ctx.main
+            for i in range(n):
+                if rm[i]:
+                    state['dir'] = False
+                    ctx.rec('WAL_RMDIR', before=i)
+                state['cur'] = i
+                e = mm.dispatch(a, ctx.ev(TypedEvent if i == 1 else P, f'E{i}', event_timeout=30.0))
+                await mm.wait(e)
+                await a.wait_until_idle()
+            st['done'] = True
+            ctx.rec('MAINEND')
+        fin = ctx.run(main())
+    finally:
+        svc.anyio.open_file = saved
+    tr = Trace(ctx.records)
+    ctx.check('C17.fault_isolated', bool(fin) and not tr.DX, why='main did not finish / a dispatch raised')
+    for i in range(n):
+        lab = f'E{i}'
+        sn = ctx.snap(ctx.events[lab])
+        ctx.check('C17.fault_isolated', sn['status'] == 'completed' and sn['signal'] is True, ev=lab, got=(sn['status'], sn['signal']))
+        ws = [r for r in tr.recs if r.kind == 'WAL_WRITE' and r.ev_index == i]
+        if m[i] == 'ok':
+            good = len(ws) == 1 and ws[0].text.endswith(chr(10)) and json.loads(ws[0].text).get('event_id') == ctx.events[lab].event_id
+            ctx.check('C17.one_line_per_processed', good, ev=lab, lines=len(ws), mkdir=m, removed=rm,
+                      why='the directory could be created for this event and nothing else failed, yet its line is missing')
+            ctx.witness('line written')
+            if good:
+                back = type(ctx.events[lab]).model_validate_json(ws[0].text)
+                ctx.check('C17.line_faithful', back.event_id == ctx.events[lab].event_id and back.event_type == ctx.events[lab].event_type, ev=lab)
+        else:
+            ctx.check('C17.one_line_per_processed', len(ws) <= 1, ev=lab, lines=len(ws))
+            ctx.witness('mkdir failed')
+
+
 from ..scenlib import t_tree
 from .. import scenlib as S
 from ._common import mk
-TEMPLATES = {'s1.wal': t_wal, 'tree': t_tree}
+TEMPLATES = {'s1.wal': t_wal, 's1.wal_fs': t_wal_fs, 'tree': t_tree}
 
 
 def _with_wal(cfg, buses):
@@ -247,6 +351,7 @@ def jobs(tier):
         Job('C17', 's1.wal', t_wal, dict(topo='nested', faults=False, teardown=True), witnesses=('complete at teardown',)),
         Job('C17', 's1.wal', t_wal, dict(topo='parallel', faults=False, teardown=True), witnesses=('complete at teardown',)),
     ]
+    out.append(Job('C17', 's1.wal_fs', t_wal_fs, {}, witnesses=('line written', 'mkdir failed')))
     out += mk('C17', 'tree/fw_late_await', _with_wal(S.fw_late_await(), ['A', 'B']), witnesses=('wal written',))
     out += mk('C17', 'tree/fw_chain3', _with_wal(S.forward_chain(3, topo='chain', second_event=True), ['A', 'B', 'C']), witnesses=('wal written',))
     out += mk('C17', 'tree/child_await', _with_wal(S.child('await', k=1), ['A']), witnesses=('wal written',))
